@@ -5,7 +5,7 @@ LEVEL = "exploration"
 def plan(tier, seed):
     quick = tier == "quick"
     nshards = 16
-    cases = 3200 if quick else 120000
+    cases = 6000 if quick else 120000
     return dict(
         builds=[("asan", "c02")],
         shards=[dict(bin=("asan", "c02"), args=["--cases", cases]) for _ in range(nshards)],
